@@ -907,3 +907,9 @@ package httpserver
 //@   pure reads ResponseRecorder.status
 //@   requires r != nil
 //@   ensures result == r.status
+
+//@ unit middleware_helpers_sweep props=C19,C12 files=middleware.go nilchecks=on nonnil_params=on filter=`.`
+//@ // helpers every handler uses on request data (config selection by longest base path, index-file lookup, Last-Modified,
+//@ // merged request matchers): zero-annotation safety sweep - index, slice, nil dereference, division, explicit panic
+//@ use @verif/specs/stdlib.spec:stdlib
+//@ use @verif/specs/stdlib.spec:nethttp_api
